@@ -1541,6 +1541,8 @@ class Interp:
             return self.call_function(f, args, kwargs, fr)
         if isinstance(f, VCallable):
             return self.call_opaque(f, args, kwargs)
+        if isinstance(f, VElem) and 'call_default' in self.spec_funcs:
+            return self.spec_funcs['call_default'](self, 'apply', 'apply', f, args, kwargs)
         if isinstance(f, VClass):
             h = self.summaries.get(f.name + '.__new__')
             if h is not None:
